@@ -290,6 +290,13 @@ impl Check for C14 {
             .count();
         // first run: generates
         let first = scen::run_tool(env, &w, &c.setup, &c.cfg, c.procs[0].clone(), false, c.verbose[0]);
+        if c.prelude.is_some() && first.res.status.is_ok() && !first.res.regenerated() {
+            // the switch from the earlier project state was not noticed by the cache: C08's
+            // business (stale bindings), not an idempotence question - counted, not judged here
+            co.count("earlier_state_not_noticed_by_the_cache(C08, not judged here)", 1);
+            w.destroy();
+            return co;
+        }
         if !first.res.status.is_ok() || !first.res.regenerated() {
             co.discard = Some(format!("first run: {} regenerated={}", first.res.status.short(), first.res.regenerated()));
             return co;
